@@ -4,7 +4,12 @@
 (*   Begin     _get_executing_orders(real) + _sort_execution_orders              *)
 (*   TryNext   the `for` loop over the (possibly stale) candidate list           *)
 (*   Fill      split_candle at the order price, order.execute()                  *)
-(*   React*    what the strategy hooks may do inside execute(): submit / cancel  *)
+(*   React*    what the strategy hooks may do inside execute(): submit a LIMIT / *)
+(*             STOP order, submit a MARKET order (price = position.current_price *)
+(*             as set by the loop: the fill price, or - quirk - the candle's     *)
+(*             close when the fill was at the open and the candle came back      *)
+(*             unsplit; the order is ACTIVE in the store, so the re-selection    *)
+(*             matches it like a resting order), cancel                          *)
 (*   Reselect  _get_executing_orders(later part) + sort, restart the `for`       *)
 (*   Finish    candidate list exhausted -> store the full candle                 *)
 (*   LiqCheck  _check_for_liquidations(real)  (C09)                              *)
@@ -31,9 +36,10 @@ VARIABLES real,      \* the minute's candle as passed to the function
           cursor, pc,
           lastPos,   \* GHOST: canonical-path position of the latest fill (0 at the start of the minute)
           nreact,
+          cur,       \* position.current_price as set by the loop at the latest fill (0 before the first fill)
           pos,       \* C09: [open, liq] - is a position open after matching and where is its liquidation price
           liqd       \* C09: was the position force-closed by LiqCheck
-vars == <<real, temp, ords, cands, cursor, pc, lastPos, nreact, pos, liqd>>
+vars == <<real, temp, ords, cands, cursor, pc, lastPos, nreact, cur, pos, liqd>>
 Active(i) == ords[i].st = "A"
 Idx == DOMAIN ords
 
@@ -74,17 +80,17 @@ Reach(i) == FirstReach(real, From(i), ords[i].p)
 
 PosStates == IF Liq THEN [open : BOOLEAN, liq : Px] ELSE {[open |-> FALSE, liq |-> 1]}
 Init == /\ real \in Candles /\ temp = real
-        /\ \E n \in 0..MaxOrders : ords \in [1..n -> [p : Px, st : {"A"}, born : {0}]]
-        /\ cands = <<>> /\ cursor = 0 /\ pc = "select" /\ lastPos = 0 /\ nreact = 0
+        /\ \E n \in 0..MaxOrders : ords \in [1..n -> [p : Px, st : {"A"}, born : {0}, mk : {FALSE}]]
+        /\ cands = <<>> /\ cursor = 0 /\ pc = "select" /\ lastPos = 0 /\ nreact = 0 /\ cur = 0
         /\ pos \in PosStates /\ liqd = FALSE
 
 Begin == /\ pc = "select" /\ cands' = Select(ords, temp) /\ cursor' = 1 /\ pc' = "loop"
-         /\ UNCHANGED <<real, temp, ords, lastPos, nreact, pos, liqd>>
+         /\ UNCHANGED <<real, temp, ords, lastPos, nreact, cur, pos, liqd>>
 
 TryNext == /\ pc = "loop" /\ cursor <= Len(cands)
            /\ LET i == cands[cursor] IN ~Active(i) \/ ~Includes(temp, ords[i].p)
            /\ cursor' = cursor + 1
-           /\ UNCHANGED <<real, temp, ords, cands, pc, lastPos, nreact, pos, liqd>>
+           /\ UNCHANGED <<real, temp, ords, cands, pc, lastPos, nreact, cur, pos, liqd>>
 
 Fill == /\ pc = "loop" /\ cursor <= Len(cands)
         /\ LET i == cands[cursor] IN
@@ -92,22 +98,27 @@ Fill == /\ pc = "loop" /\ cursor <= Len(cands)
            /\ temp' = Split(temp, ords[i].p)[2]
            /\ ords' = [ords EXCEPT ![i].st = "E"]
            /\ lastPos' = IF Reach(i) = NoReach THEN lastPos ELSE Reach(i)      \* ghost
+           /\ cur' = IF ords[i].p = temp.o THEN temp.c ELSE ords[i].p         \* storable_temp_candle[2]
         /\ pc' = "react"
         /\ \E o2 \in (IF Liq THEN BOOLEAN ELSE {FALSE}) : pos' = [pos EXCEPT !.open = o2]   \* a fill may open/close the position
         /\ UNCHANGED <<real, cands, cursor, nreact, liqd>>
 
 \* environment inside order.execute(): the strategy's hooks submit or cancel
 ReactSubmit(p) == /\ pc = "react" /\ nreact < MaxReact
-                  /\ ords' = Append(ords, [p |-> p, st |-> "A", born |-> lastPos])
-                  /\ nreact' = nreact + 1 /\ UNCHANGED <<real, temp, cands, cursor, pc, lastPos, pos, liqd>>
+                  /\ ords' = Append(ords, [p |-> p, st |-> "A", born |-> lastPos, mk |-> FALSE])
+                  /\ nreact' = nreact + 1 /\ UNCHANGED <<real, temp, cands, cursor, pc, lastPos, cur, pos, liqd>>
+\* a hook submits a MARKET order (liquidate(), an exit at the current price ...)
+ReactMarket == /\ pc = "react" /\ nreact < MaxReact
+               /\ ords' = Append(ords, [p |-> cur, st |-> "A", born |-> lastPos, mk |-> TRUE])
+               /\ nreact' = nreact + 1 /\ UNCHANGED <<real, temp, cands, cursor, pc, lastPos, cur, pos, liqd>>
 ReactCancel(j) == /\ pc = "react" /\ nreact < MaxReact /\ Active(j)
                   /\ ords' = [ords EXCEPT ![j].st = "C"]
-                  /\ nreact' = nreact + 1 /\ UNCHANGED <<real, temp, cands, cursor, pc, lastPos, pos, liqd>>
+                  /\ nreact' = nreact + 1 /\ UNCHANGED <<real, temp, cands, cursor, pc, lastPos, cur, pos, liqd>>
 Reselect == /\ pc = "react" /\ cands' = Select(ords, temp) /\ cursor' = 1 /\ pc' = "loop"
-            /\ UNCHANGED <<real, temp, ords, lastPos, nreact, pos, liqd>>
+            /\ UNCHANGED <<real, temp, ords, lastPos, nreact, cur, pos, liqd>>
 
 Finish == /\ pc = "loop" /\ cursor > Len(cands) /\ pc' = "matched"
-          /\ UNCHANGED <<real, temp, ords, cands, cursor, lastPos, nreact, pos, liqd>>
+          /\ UNCHANGED <<real, temp, ords, cands, cursor, lastPos, nreact, cur, pos, liqd>>
 
 \* _check_for_liquidations(real_candle): liquidation_price is NaN for a closed position / cross / spot
 \* (Liq = FALSE models those sessions: the check returns at once)
@@ -116,9 +127,9 @@ LiqCheck == /\ pc = "matched" /\ pc' = "done"
                THEN /\ liqd' = TRUE /\ pos' = [pos EXCEPT !.open = FALSE]
                     /\ ords' = [i \in Idx |-> IF Active(i) THEN [ords[i] EXCEPT !.st = "C"] ELSE ords[i]]  \* position closed -> strategy cancels everything resting
                ELSE UNCHANGED <<liqd, pos, ords>>
-            /\ UNCHANGED <<real, temp, cands, cursor, lastPos, nreact>>
+            /\ UNCHANGED <<real, temp, cands, cursor, lastPos, nreact, cur>>
 
-Next == Begin \/ TryNext \/ Fill \/ (\E p \in Px : ReactSubmit(p)) \/ (\E j \in Idx : ReactCancel(j)) \/ Reselect
+Next == Begin \/ TryNext \/ Fill \/ (\E p \in Px : ReactSubmit(p)) \/ ReactMarket \/ (\E j \in Idx : ReactCancel(j)) \/ Reselect
         \/ Finish \/ LiqCheck
 Spec == Init /\ [][Next]_vars
 
@@ -149,6 +160,9 @@ ReactionAfterFill == [][\A i \in Idx : (Filled(i) /\ ords[i].born > 0) => lastPo
 TempFollowsPath == pc \in {"loop", "react"} /\ lastPos > 0 =>
                      /\ ValidCandle(temp) /\ temp.c = real.c
                      /\ \E i \in Idx : ords[i].st = "E" /\ (temp.o = ords[i].p \/ ords[i].p = real.o)
+\* C02 / C08: a MARKET order created inside a fill is executed on the rest of the minute's path (by
+\* FillAtFirstReach no order the path reaches later overtakes it) - never left to the end-of-minute flush
+MarketFilledInMinute == pc \in {"matched", "done"} => \A j \in Idx : ords[j].mk => ~Active(j)
 \* C09: liquidation iff open after matching and the range contains the liquidation price; then the
 \* position is closed and nothing is left resting; never otherwise
 LiqIff == [][pc = "matched" => (liqd' = (Liq /\ pos.open /\ real.l <= pos.liq /\ pos.liq <= real.h))]_vars
